@@ -189,6 +189,11 @@ def run_session(case, data_dir=None, data_source=None, keep=False):
         except (ValueError, KeyError, TypeError) as e:
             rec['construct'] = type(e).__name__
             return rec
+        if case.get('reserve'):
+            # a second, funded, cash-only portfolio at the same broker: account equity is the sum over portfolios
+            bt.broker.subscribe_funds_to_account(case['reserve'])
+            bt.broker.create_portfolio('RESERVE', 'reserve')
+            bt.broker.subscribe_funds_to_portfolio('RESERVE', case['reserve'])
         rec['schedule'] = [secs(t) for t in bt.rebalance_schedule]
         rec['clock'] = [[secs(ev.ts), ev.event_type] for ev in bt.sim_engine]
         pf = bt.broker.portfolios[bt.portfolio_id]
